@@ -410,81 +410,84 @@ func retryDecision(c *Ctx, aspects map[string]bool) {
 				bad("the outcome does not determine whether retries are exceeded: exceeded ⇔ (maxRetries≠-1 ∧ failedAttempts+1 > maxRetries) ∨ (maxDuration≠0 ∧ elapsed > maxDuration)")
 				continue
 			}
-			// the failed-attempt counter is bumped by exactly one, and the exceeded flag is stored
-			var cntStores, flagStores []*Event
-			for _, e := range p.Events() {
-				if e.Kind == EvStore && e.Addr.Op == "faddr" && rootedAt(e.Addr, ee.X) {
-					switch FieldName(e.Addr.Aux) {
-					case "failedAttempts":
-						cntStores = append(cntStores, e)
-					case "retriesExceeded":
-						flagStores = append(flagStores, e)
+			// (a clause of the decision that fails does not hide what the listeners are given: each part reports on its own)
+			func() {
+				// the failed-attempt counter is bumped by exactly one, and the exceeded flag is stored
+				var cntStores, flagStores []*Event
+				for _, e := range p.Events() {
+					if e.Kind == EvStore && e.Addr.Op == "faddr" && rootedAt(e.Addr, ee.X) {
+						switch FieldName(e.Addr.Aux) {
+						case "failedAttempts":
+							cntStores = append(cntStores, e)
+						case "retriesExceeded":
+							flagStores = append(flagStores, e)
+						}
 					}
 				}
-			}
-			if len(cntStores) != 1 || cntStores[0].Val != failedAfter {
-				bad("failedAttempts is not incremented by exactly 1 on this path")
-				continue
-			}
-			if len(flagStores) == 0 || truth(flagStores[len(flagStores)-1].Val) != X {
-				bad(fmt.Sprintf("the retries-exceeded flag stored does not equal the specified condition (expected %s)", X))
-				continue
-			}
-			// returned value
-			ret := p.Rets[0]
-			var wd, fr *Event
-			for _, e := range p.Events() {
-				if isCall(e, "WithDone") && len(e.Res) == 1 && e.Res[0] == ret {
-					wd = e
+				if len(cntStores) != 1 || cntStores[0].Val != failedAfter {
+					bad("failedAttempts is not incremented by exactly 1 on this path")
+					return
 				}
-				if isCall(e, "FailureResult") && len(e.Res) == 1 && e.Res[0] == ret {
-					fr = e
+				if len(flagStores) == 0 || truth(flagStores[len(flagStores)-1].Val) != X {
+					bad(fmt.Sprintf("the retries-exceeded flag stored does not equal the specified condition (expected %s)", X))
+					return
 				}
-			}
-			wantDone := triOr(A, triOr(X, W.not()))
-			if wantDone == triU {
-				bad("the outcome does not determine Done = abortable ∨ exceeded ∨ ¬allowsRetries")
-				continue
-			}
-			isExceededErr := func(e *Event) bool {
-				a := e.Args[0]
-				return a.Op == "struct" && len(a.Args) == 2 && a.Args[0] == resR && a.Args[1] == resE && a.Typ != nil && namedOfPtr(types.NewPointer(a.Typ)) != nil && namedOfPtr(types.NewPointer(a.Typ)).Obj().Name() == "ExceededError"
-			}
-			if A == triF {
-				if X == triT && L == triU {
-					bad("the outcome for exceeded retries does not depend on ReturnLastFailure")
-					continue
+				// returned value
+				ret := p.Rets[0]
+				var wd, fr *Event
+				for _, e := range p.Events() {
+					if isCall(e, "WithDone") && len(e.Res) == 1 && e.Res[0] == ret {
+						wd = e
+					}
+					if isCall(e, "FailureResult") && len(e.Res) == 1 && e.Res[0] == ret {
+						fr = e
+					}
 				}
-				if X == triT && L == triF {
-					if fr == nil || !isExceededErr(fr) {
-						bad("retries exceeded without ReturnLastFailure must return FailureResult(ExceededError{LastResult: result.Result, LastError: result.Error})")
-						continue
+				wantDone := triOr(A, triOr(X, W.not()))
+				if wantDone == triU {
+					bad("the outcome does not determine Done = abortable ∨ exceeded ∨ ¬allowsRetries")
+					return
+				}
+				isExceededErr := func(e *Event) bool {
+					a := e.Args[0]
+					return a.Op == "struct" && len(a.Args) == 2 && a.Args[0] == resR && a.Args[1] == resE && a.Typ != nil && namedOfPtr(types.NewPointer(a.Typ)) != nil && namedOfPtr(types.NewPointer(a.Typ)).Obj().Name() == "ExceededError"
+				}
+				if A == triF {
+					if X == triT && L == triU {
+						bad("the outcome for exceeded retries does not depend on ReturnLastFailure")
+						return
+					}
+					if X == triT && L == triF {
+						if fr == nil || !isExceededErr(fr) {
+							bad("retries exceeded without ReturnLastFailure must return FailureResult(ExceededError{LastResult: result.Result, LastError: result.Error})")
+							return
+						}
+					} else {
+						if wd == nil || wd.Recv != result || truth(wd.Args[0]) != wantDone || truth(wd.Args[1]) != triF {
+							bad(fmt.Sprintf("expected result.WithDone(%s, false) to be returned (the failing outcome unchanged, Done=%s)", wantDone, wantDone))
+							return
+						}
 					}
 				} else {
-					if wd == nil || wd.Recv != result || truth(wd.Args[0]) != wantDone || truth(wd.Args[1]) != triF {
-						bad(fmt.Sprintf("expected result.WithDone(%s, false) to be returned (the failing outcome unchanged, Done=%s)", wantDone, wantDone))
-						continue
+					// abortable: the policy stops (Done). Giving up takes precedence when both coincide: an outcome that also
+					// exhausts the budget is reported as ExceededError (unless ReturnLastFailure), like any other exhausting
+					// outcome — an outer policy handling ExceededError must see it
+					switch {
+					case X == triT && L == triU:
+						bad("the outcome for exceeded retries does not depend on ReturnLastFailure")
+						return
+					case X == triT && L == triF:
+						if fr == nil || !isExceededErr(fr) {
+							bad("retries exceeded without ReturnLastFailure must return FailureResult(ExceededError{LastResult: result.Result, LastError: result.Error}), also when the exhausting outcome matches an abort condition")
+							return
+						}
+					case wd != nil && wd.Recv == result && truth(wd.Args[0]) == triT && truth(wd.Args[1]) == triF:
+					default:
+						bad("an abort-matching outcome must stop the policy and be returned unchanged: result.WithDone(true, false)")
+						return
 					}
 				}
-			} else {
-				// abortable: the policy stops (Done). Giving up takes precedence when both coincide: an outcome that also
-				// exhausts the budget is reported as ExceededError (unless ReturnLastFailure), like any other exhausting
-				// outcome — an outer policy handling ExceededError must see it
-				switch {
-				case X == triT && L == triU:
-					bad("the outcome for exceeded retries does not depend on ReturnLastFailure")
-					continue
-				case X == triT && L == triF:
-					if fr == nil || !isExceededErr(fr) {
-						bad("retries exceeded without ReturnLastFailure must return FailureResult(ExceededError{LastResult: result.Result, LastError: result.Error}), also when the exhausting outcome matches an abort condition")
-						continue
-					}
-				case wd != nil && wd.Recv == result && truth(wd.Args[0]) == triT && truth(wd.Args[1]) == triF:
-				default:
-					bad("an abort-matching outcome must stop the policy and be returned unchanged: result.WithDone(true, false)")
-					continue
-				}
-			}
+			}()
 			// listeners
 			abortCalls := eventsWhere(p, func(e *Event) bool { return dynFieldCall(e, "onAbort") })
 			excCalls := eventsWhere(p, func(e *Event) bool { return dynFieldCall(e, "onRetriesExceeded") })
